@@ -288,12 +288,32 @@ def run(tier):
             okj = v is not None and v[0] == 'agg' and v[1].endswith('Joined') and term_contains(v, lambda y: isinstance(y, tuple) and y[:1] == ('as',) and y[2] == 'Some' and has_call(y, 'Otaa::handle_rx'))
             res.require(okj, 'C11:Mac::handle_rx:joined-value', 'Mac.state is set to something else than Joined(session returned by Otaa::handle_rx): %s' % (term_str(v) if v else s.rv.k),
                         short_site(bm, bb, si), 'PROVENANCE(Mac.state)', instance='Mac.state = Joined(Some-payload of Otaa::handle_rx)')
-    # no accept: NoJoinAccept and nothing written
-    br = c.bf(D + 'mac::otaa::Otaa::rx2_complete')
-    wr = list(br.field_writes())
-    rets = [s for b in br.body.blocks if not b.cleanup for s in b.stmts if s.k == 'assign' and s.lhs.local == 0]
-    okn = not wr and not list(br.calls()) and len(rets) == 1 and rets[0].rv.k == 'agg' and rets[0].rv.d.get('variant') == 'NoJoinAccept'
-    res.require(okn, 'C11:Otaa::rx2_complete', 'a join attempt without accept does not simply end in NoJoinAccept', br.body.path, 'SHAPE(return NoJoinAccept, no effects)',
+    # no accept: NoJoinAccept and nothing written - judged at Mac::rx2_complete's Otaa arm (the arm may delegate to Otaa::rx2_complete)
+    bx = c.bf(D + 'mac::Mac::rx2_complete')
+    sv = rules.variants_of(c.prog, 'mac::State')
+    if 'Otaa' not in sv:
+        raise CheckError('anchor: mac::State::Otaa')
+
+    def in_otaa_arm(bb):
+        return any(x[0][0] == 'discr' and field_path(x[0][1])[1][-1:] == ['state'] and x[1] == (sv['Otaa'],) for x in path_conditions(bx, bb))
+    arm_blocks = [b.idx for b in bx.body.blocks if not b.cleanup and b.idx in bx.cfg.reach and in_otaa_arm(b.idx)]
+    if not arm_blocks:
+        raise CheckError('anchor: Mac::rx2_complete has no State::Otaa arm')
+    arm_calls = [(bb, t) for bb, t in bx.calls() if bb in arm_blocks]
+    arm_writes = [(bb, si) for bb, si, s, root, path in bx.field_writes() if bb in arm_blocks]
+    arm_rets = [s for bb in arm_blocks for s in bx.body.blocks[bb].stmts if s.k == 'assign' and s.lhs.is_local() and s.lhs.local == 0]
+    deleg = [(bb, t) for bb, t in arm_calls if callee_name(t).endswith('Otaa::rx2_complete')]
+    if deleg:
+        okn = len(arm_calls) == 1 and not arm_writes and not arm_rets and deleg[0][1].dest.is_local() and deleg[0][1].dest.local == 0
+        br = c.bf(D + 'mac::otaa::Otaa::rx2_complete')
+        wr = list(br.field_writes())
+        rets = [s for b in br.body.blocks if not b.cleanup for s in b.stmts if s.k == 'assign' and s.lhs.local == 0]
+        okn = okn and not wr and not list(br.calls()) and len(rets) == 1 and rets[0].rv.k == 'agg' and rets[0].rv.d.get('variant') == 'NoJoinAccept'
+        where = br.body.path
+    else:
+        okn = not arm_calls and not arm_writes and len(arm_rets) == 1 and arm_rets[0].rv.k == 'agg' and arm_rets[0].rv.d.get('variant') == 'NoJoinAccept'
+        where = bx.body.path
+    res.require(okn, 'C11:Otaa::rx2_complete', 'a join attempt without accept does not simply end in NoJoinAccept', where, 'SHAPE(return NoJoinAccept, no effects)',
                 instance='Otaa::rx2_complete returns NoJoinAccept and writes nothing')
     # ------------------------------------------------------------------ (c) key derivation
     bk = c.bf(P + 'derive_session_key')
